@@ -92,6 +92,7 @@ type Swarm struct {
 	ovh     int // learned per-record overhead in bytes
 	lastSz  int64
 	lastAct string
+	Bulk    int // when > 0 the run begins by loading this many keys (index structures beyond their first node, hint files beyond one block)
 }
 
 var valClasses = []string{"empty", "tiny", "small", "mid", "boundary", "blocks", "overfile", "varint"}
@@ -100,7 +101,7 @@ var valClasses = []string{"empty", "tiny", "small", "mid", "boundary", "blocks",
 var varintValLens = []int{63, 64, 65, 8191, 8192, 8193, blockSz - 7, 2*blockSz - 14, 1048575, 1048576}
 
 func newSwarm(rng *vrt.Rand, ops []string, maxSteps int) *Swarm {
-	s := &Swarm{W: map[string]int{}, ovh: 12}
+	s := &Swarm{W: map[string]int{}, ovh: 12, Bulk: bulkShare}
 	s.Keys = genKeys(rng, rng.Range(1, 8))
 	for _, o := range ops {
 		if rng.Chance(0.8) {
@@ -263,6 +264,15 @@ func (s *Swarm) genPlain(rng *vrt.Rand, restartCfg func() *Config) func(r *Runne
 		}
 		if i >= s.Steps || len(kinds) == 0 {
 			return nil
+		}
+		if i == 0 && s.Bulk > 0 {
+			s.tag += uint32(s.Bulk)
+			op := &Op{K: "bulk", Key: Bytes("b"), N: s.Bulk, Val: &Val{Len: rng.Range(0, 12), Tag: 1<<24 + s.tag}, Dt: s.dt(rng)}
+			for j := 0; j < 5; j++ { // later operations also aim at some of the loaded keys
+				s.Keys = append(s.Keys, []byte(fmt.Sprintf("b%04d", rng.Intn(s.Bulk))))
+			}
+			prev = nil
+			return op
 		}
 		k := kinds[rng.Pick(weights)]
 		if i == 0 && rng.Chance(0.7) {
@@ -1518,4 +1528,26 @@ func init() {
 		mergeRace(c, rng)
 		c.Cfg.IO = byte(rng.Pick([]int{3, 1}))
 	})
+}
+
+// withBulk lets a share of a property's sequential runs begin with a bulk load of 40..400 keys.
+func withBulk(prop string, share float64) {
+	gen := generators[prop]
+	generators[prop] = func(c *Case, rng *vrt.Rand, tier string) func(r *Runner, i int) *Op {
+		bulkShare = 0
+		if rng.Chance(share) {
+			bulkShare = rng.Range(40, 400)
+		}
+		defer func() { bulkShare = 0 }()
+		return gen(c, rng, tier)
+	}
+}
+
+// bulkShare is read by newSwarm while a generator wrapped by withBulk runs (generators run one at a time).
+var bulkShare int
+
+func init() {
+	for _, p := range []string{"C01", "C02", "C06", "C10", "C14", "C17", "C18", "C20"} {
+		withBulk(p, 0.04)
+	}
 }
